@@ -350,3 +350,17 @@ V('ck4-lookahead', ['C20'], CH,
   "    expr = (r'(' + equ + r'(?=\\s*' + equ + r'))|'", 'CK4')
 V('ab4-offset', ['C20'], CH, "        'offset': offset - beg + 3,", "        'offset': offset - beg,", 'AB4')
 V('ab4-replace', ['C20'], CH, "replace('\\t', ' ').replace('\\n', ' ')", "replace('\\t', '    ').replace('\\n', ' ')", 'AB4')
+
+# ---------------------------------------------------------------- rg
+PA = 'yalafi/parameters.py'
+V('rg1-label-leak', ['C03'], PA, "        \\newcommand{\\label}[1]{}", "        \\newcommand{\\label}[1]{#1}", 'RG1')
+V('rg1-caption-opt', ['C03'], PA, "Macro(self, '\\\\caption', args='OA', extract='#2'),", "Macro(self, '\\\\caption', args='OA', extract='#1#2'),", 'RG1')
+V('rg1-color', ['C03'], 'yalafi/packages/xcolor.py', "\\newcommand{\\textcolor}[3][]{#3}", "\\newcommand{\\textcolor}[3][]{#2#3}", 'RG1')
+V('rg2-missing', ['C03'], PA, "        \\newcommand{\\index}[1]{}\n", "", 'RG2')
+V('rg2-env-missing', ['C03'], 'yalafi/packages/listings.py', "        Environ(parms, 'lstlisting', remove=True),\n", "", 'RG2')
+V('ix1-code-short', ['C07'], PA, "Macro(self, '\\\\cite', args='OA', repl=hs.h_cite),", "Macro(self, '\\\\cite', args='A', repl=hs.h_cite),", [])
+V('ix1-unguarded-opt', ['C07'], 'yalafi/handlers.py',
+  "    if args[0]:\n        out = [defs.TextToken(pos, '[0,', pos_fix=True),\n                    defs.SpaceToken(pos, ' ', pos_fix=True)]\n        out += args[0]\n        out += [defs.TextToken(args[0][-1].pos, ']'),\n                    defs.ActionToken(args[0][-1].pos)]\n    else:\n        out = [defs.TextToken(pos, '[0]', pos_fix=True),\n                    defs.ActionToken(pos)]",
+  "    out = [defs.TextToken(pos, '[0,', pos_fix=True),\n                    defs.SpaceToken(pos, ' ', pos_fix=True)]\n    out += args[0]\n    out += [defs.TextToken(args[0][-1].pos, ']'),\n                    defs.ActionToken(args[0][-1].pos)]", 'IX1')
+V('ix1-index-beyond', ['C07'], 'yalafi/handlers.py', "    arg = args[2]\n    txt = parser.get_text_expanded(arg).strip()", "    arg = args[3]\n    txt = parser.get_text_expanded(arg).strip()", 'IX1')
+V('ix2a-empty-buffer', ['C07'], P, "                if not out:\n                    out = [defs.VoidToken(pos)]\n                return scanner.Buffer(out)", "                return scanner.Buffer(out)", 'IX2a')
